@@ -124,6 +124,9 @@ CASES = [
     ("W5-correct-chunks-for-large-recording-sets", "rewrite", [
         (RS, RS_LIST, "        recording_objects = []\n        for start in range(0, len(obj.recordings), 512):\n            recording_objects.extend(\n"
                       "                self.recording_adapter.to_aoef(recording)\n                for recording in obj.recordings[start : start + 512]\n            )\n")]),
+    ("W7-successful-save-keeps-a-backup-of-the-earlier-file", "rewrite", [
+        (INIT, WRITE, "    aoef_object = to_aeof(obj, audio_dir=audio_dir)\n    content = aoef_object.model_dump_json(exclude_none=True, exclude=exclude)\n\n"
+                      "    if path.exists():\n        path.with_name(path.name + \".bak\").write_bytes(path.read_bytes())\n    path.write_text(content)\n")]),
     ("W6-load-joins-through-fspath", "rewrite", [
         (REC, LOAD, "        path = obj.path\n        if self.audio_dir is not None:\n            import os\n\n"
                     "            path = Path(os.fspath(self.audio_dir)) / obj.path\n")]),
